@@ -24,8 +24,9 @@ B64Alphabet == <<65,66,67,68,69,70,71,72,73,74,75,76,77,78,79,80,81,82,83,84,85,
                  48,49,50,51,52,53,54,55,56,57,43,47>>
 Pad == 61
 
-RECURSIVE B64(_)
-B64(d) ==
+\* the textbook definition, group by group ...
+RECURSIVE B64Rec(_)
+B64Rec(d) ==
     IF d = <<>> THEN <<>>
     ELSE IF Len(d) = 1 THEN
         <<B64Alphabet[(d[1] \div 4) + 1], B64Alphabet[((d[1] % 4) * 16) + 1], Pad, Pad>>
@@ -35,7 +36,20 @@ B64(d) ==
     ELSE
         <<B64Alphabet[(d[1] \div 4) + 1], B64Alphabet[((d[1] % 4) * 16 + d[2] \div 16) + 1],
           B64Alphabet[((d[2] % 16) * 4 + d[3] \div 64) + 1], B64Alphabet[(d[3] % 64) + 1]>>
-        \o B64(SubSeq(d, 4, Len(d)))
+        \o B64Rec(SubSeq(d, 4, Len(d)))
+\* ... and the same function character by character (no recursion: usable on packets of many KiB)
+B64(d) ==
+    LET n == Len(d)
+        At(k) == IF k <= n THEN d[k] ELSE 0
+        Ch(i) == LET g == (i - 1) \div 4   pos == (i - 1) % 4
+                     b1 == At(3 * g + 1)  b2 == At(3 * g + 2)  b3 == At(3 * g + 3) IN
+                 CASE pos = 0 -> B64Alphabet[(b1 \div 4) + 1]
+                   [] pos = 1 -> B64Alphabet[((b1 % 4) * 16 + b2 \div 16) + 1]
+                   [] pos = 2 -> IF 3 * g + 2 > n THEN Pad ELSE B64Alphabet[((b2 % 16) * 4 + b3 \div 64) + 1]
+                   [] pos = 3 -> IF 3 * g + 3 > n THEN Pad ELSE B64Alphabet[(b3 % 64) + 1]
+    IN [i \in 1..(4 * ((n + 2) \div 3)) |-> Ch(i)]
+ASSUME \A d \in {<<>>, <<0>>, <<255>>, <<1, 2>>, <<255, 254>>, <<77, 97, 110>>, <<1, 2, 3, 4>>, <<250, 251, 252, 253, 254>>,
+                 <<0, 30, 97, 255, 128, 64, 7>>} : B64(d) = B64Rec(d)
 
 B64Len(n) == 4 * ((n + 2) \div 3)
 
